@@ -49,19 +49,22 @@ def _alarm(signum, frame):
 
 class watchdog:
     """Per-case watchdog: turns a hang of the implementation into an exception.
-    Counts CPU time of this process (ITIMER_PROF), not wall-clock time: with 16 busy workers the sandbox
-    deschedules / throttles processes for seconds, which made wall-clock alarms fire on healthy cases."""
+    Counts USER CPU time of this process (ITIMER_VIRTUAL), neither wall-clock time nor kernel time: with 16 busy
+    workers the sandbox deschedules processes for seconds (wall-clock alarms fired on healthy cases), and under heavy
+    load the kernel time charged to a process for page faults and forks grew to seconds as well (ITIMER_PROF alarms
+    fired on a handful of trivial parses in a thorough run; their replays passed). A hang of the implementation is a
+    Python-level loop or recursion, i.e. user time."""
 
     def __init__(self, seconds=5):
         self.seconds = seconds
 
     def __enter__(self):
-        self.old = signal.signal(signal.SIGPROF, _alarm)
-        signal.setitimer(signal.ITIMER_PROF, self.seconds)
+        self.old = signal.signal(signal.SIGVTALRM, _alarm)
+        signal.setitimer(signal.ITIMER_VIRTUAL, self.seconds)
 
     def __exit__(self, *a):
-        signal.setitimer(signal.ITIMER_PROF, 0)
-        signal.signal(signal.SIGPROF, self.old)
+        signal.setitimer(signal.ITIMER_VIRTUAL, 0)
+        signal.signal(signal.SIGVTALRM, self.old)
         return False
 
 
